@@ -193,6 +193,7 @@ func (tw *TplWorld) loadEngine(name string) (*TplEngine, error) {
 								if err != nil {
 									return nil, fmt.Errorf("%s/%s does not parse as Handlebars: %v", rel, file, err)
 								}
+								canonBlocks(prog)
 								varContent[nm.Name] = &Tpl{Engine: name, Name: nm.Name, File: rel + "/" + file, Src: string(b), Prog: prog}
 							}
 						}
@@ -248,6 +249,7 @@ func (tw *TplWorld) loadEngine(name string) (*TplEngine, error) {
 		if err != nil {
 			return nil, fmt.Errorf("%s: extension %q does not parse: %v", w.pos(kv.Pos()), key, err)
 		}
+		canonBlocks(prog)
 		eng.Extensions[key] = &Tpl{Engine: name, Name: key, Src: src, Prog: prog}
 	}
 	for v := range eng.EmbedVars {
@@ -928,4 +930,33 @@ func tplSite(t *Tpl, eng *TplEngine, line int) string {
 		f = eng.PkgRel + "/embeds.go"
 	}
 	return fmt.Sprintf("%s:%d", f, line)
+}
+
+// canonBlocks rewrites `{{#unless p}}Y{{/unless}}` on a context path p into the equivalent
+// `{{#if p}}{{else}}Y{{/if}}` (and an `unless` with an else into the swapped `if`), so that every
+// rule reads one spelling. `unless` on data variables (@last, @first) is left as it is.
+func canonBlocks(p *hast.Program) {
+	if p == nil {
+		return
+	}
+	for _, st := range p.Body {
+		b, ok := st.(*hast.BlockStatement)
+		if !ok {
+			continue
+		}
+		if b.Expression != nil && b.Expression.HelperName() == "unless" && len(b.Expression.Params) == 1 && b.Expression.Hash == nil {
+			if pe, isPath := b.Expression.Params[0].(*hast.PathExpression); isPath && !pe.Data {
+				if hp, ok := b.Expression.Path.(*hast.PathExpression); ok {
+					hp.Original, hp.Parts = "if", []string{"if"}
+					then := b.Inverse
+					if then == nil {
+						then = &hast.Program{NodeType: hast.NodeProgram, Loc: b.Program.Loc}
+					}
+					b.Program, b.Inverse = then, b.Program
+				}
+			}
+		}
+		canonBlocks(b.Program)
+		canonBlocks(b.Inverse)
+	}
 }
